@@ -174,75 +174,58 @@ public:
 	ndim(0),order(NULL),knots(NULL),nknots(NULL),extents(NULL),periods(NULL),
 	coefficients(NULL),naxes(NULL),strides(NULL),naux(0),aux(NULL),allocator(alloc)
 	{
-    assert(!tables.empty());
-    assert(tables.size()==coordinates.size());
-    int inputDim=tables.front()->get_ndim();
+    if(tables.size()<2)
+      throw std::runtime_error("At least two tables are needed for stacking");
+    if(tables.size()!=coordinates.size())
+      throw std::runtime_error("One coordinate is needed for each table to be stacked");
+    if(stackOrder<0 || (size_t)stackOrder>tables.size()+1)
+      throw std::runtime_error("Invalid spline order for the stacking dimension");
     for(auto table : tables){
-      assert(table->get_ndim() == inputDim);
-      assert(table->get_ncoeffs() && tables.front()->get_ncoeffs());
+      if(!table || table->get_ndim()==0)
+        throw std::runtime_error("Tables to be stacked must not be empty");
+    }
+    const unsigned int inputDim=tables.front()->get_ndim();
+    for(auto table : tables){
+      if(table->get_ndim() != inputDim)
+        throw std::runtime_error("Tables to be stacked must have the same dimension");
       for(unsigned int i=0; i<inputDim; i++){
-        assert(table->get_order(i) && tables.front()->get_order(i));
+        if(table->get_order(i) != tables.front()->get_order(i)
+           || table->get_nknots(i) != tables.front()->get_nknots(i)
+           || table->get_ncoeffs(i) != tables.front()->get_ncoeffs(i)
+           || !std::equal(table->get_knots(i),table->get_knots(i)+table->get_nknots(i),tables.front()->get_knots(i)))
+          throw std::runtime_error("Tables to be stacked must have the same orders and knots");
       }
     }
-
-    // add padding dimensions
-    {
-      auto extrapolateSpline=[](const splinetable<Alloc>* s1, const splinetable<Alloc>* s2)->splinetable<Alloc>*{
-        splinetable<Alloc>* snew = new splinetable<Alloc>();
-
-        snew->ndim = s2->ndim;
-
-        snew->order = snew->allocate<uint32_t>(s2->ndim);
-        std::copy_n(s2->order,s2->ndim,snew->order);
-
-        snew->nknots = snew->allocate<uint64_t>(s2->ndim);
-        std::copy_n(s2->nknots,s2->ndim,snew->nknots);
-
-        snew->knots = snew->allocate<double_ptr>(s2->ndim);
-        for(unsigned int i=0; i<s2->ndim; i++){
-          snew->knots[i] = snew->allocate<double>(s2->nknots[i]+2*s2->order[i]) + s2->order[i];
-          std::copy_n(s2->knots[i],s2->nknots[i],snew->knots[i]);
-        }
-
-        snew->naxes = snew->allocate<uint64_t>(s2->ndim);
-        std::copy_n(s2->naxes,s2->ndim,snew->naxes);
-
-        snew->strides = snew->allocate<uint64_t>(s2->ndim);
-        std::copy_n(s2->strides,s2->ndim,snew->strides);
-
-        snew->extents = snew->allocate<double_ptr>(s2->ndim);
-        snew->extents[0] = snew->allocate<double>(2*s2->ndim);
-        for(unsigned int i=0;i<s2->ndim; i++){
-          snew->extents[i] = &snew->extents[0][2*i];
-        }
-
-        for(unsigned int i=0; i<s2->ndim; i++){
-          snew->extents[i][0] = s2->extents[i][0];
-          snew->extents[i][1] = s2->extents[i][1];
-        }
-
-        snew->periods = NULL;
-        snew->naux = 0;
-        snew->aux = NULL;
-
-        unsigned long nCoeffs=snew->get_ncoeffs();
-        snew->coefficients=snew->allocate<float>(nCoeffs);
-        for(unsigned long i=0; i<nCoeffs; i++){
-          auto c1=s1->get_coefficients()[i];
-          auto c2=s2->get_coefficients()[i];
-          snew->get_coefficients()[i]=2*c2-c1;
-        }
-
-        return(snew);
-      };
-
-      tables.insert(tables.begin(),extrapolateSpline(tables[1],tables[0]));
-      coordinates.insert(coordinates.begin(),2*coordinates[0]-coordinates[1]);
-
-      tables.push_back(extrapolateSpline(tables[tables.size()-2],tables[tables.size()-1]));
-      coordinates.push_back(2*coordinates[coordinates.size()-1]-coordinates[coordinates.size()-2]);
+    for(size_t i=1; i<coordinates.size(); i++){
+      if(!(coordinates[i]>coordinates[i-1]))
+        throw std::runtime_error("Stacking coordinates must be increasing");
     }
 
+    // add padding layers, extrapolated linearly from the two outermost tables
+    const unsigned long nInputCoeffs=tables.front()->get_ncoeffs();
+    std::vector<float> firstLayer(nInputCoeffs), lastLayer(nInputCoeffs);
+    std::vector<const float*> layers;
+    {
+      auto extrapolate=[nInputCoeffs](const splinetable<Alloc>* s1, const splinetable<Alloc>* s2, std::vector<float>& result){
+        for(unsigned long i=0; i<nInputCoeffs; i++){
+          auto c1=s1->get_coefficients()[i];
+          auto c2=s2->get_coefficients()[i];
+          result[i]=2*c2-c1;
+        }
+      };
+      extrapolate(tables[1],tables[0],firstLayer);
+      extrapolate(tables[tables.size()-2],tables[tables.size()-1],lastLayer);
+      layers.push_back(firstLayer.data());
+      for(auto table : tables)
+        layers.push_back(table->get_coefficients());
+      layers.push_back(lastLayer.data());
+
+      coordinates.insert(coordinates.begin(),2*coordinates[0]-coordinates[1]);
+      coordinates.push_back(2*coordinates[coordinates.size()-1]-coordinates[coordinates.size()-2]);
+    }
+    const size_t nLayers=layers.size();
+
+    try{
     //set dimensions
     ndim=inputDim+1;
     //copy/set spline orders and knots
@@ -254,9 +237,10 @@ public:
       nknots[i] = tables.front()->get_nknots(i);
     }
     order[inputDim]=stackOrder;
-    nknots[inputDim]=tables.size()+stackOrder+1;
+    nknots[inputDim]=nLayers+stackOrder+1;
 
     knots=allocate<double_ptr>(ndim);
+    std::fill(knots,knots+ndim,nullptr);
     //copy existing knots
     for(unsigned int i=0; i<inputDim; i++){
       knots[i]=allocate<double>(nknots[i]+2*order[i]) + order[i];
@@ -267,11 +251,11 @@ public:
       knots[inputDim]=allocate<double>(nknots[inputDim]+2*order[inputDim]) + order[inputDim];
       double_ptr lastKnots=knots[inputDim];
       //copy input positions
-      std::copy_n(coordinates.begin(),tables.size(),lastKnots+stackOrder);
+      std::copy_n(coordinates.begin(),nLayers,lastKnots+stackOrder);
 
       //shift knots
-      double knotShift=(stackOrder-1)*(lastKnots[stackOrder+tables.size()-1]-lastKnots[stackOrder])/(2*tables.size());
-      for(unsigned int i=0; i<tables.size(); i++)
+      double knotShift=(stackOrder-1)*(lastKnots[stackOrder+nLayers-1]-lastKnots[stackOrder])/(2*nLayers);
+      for(unsigned int i=0; i<nLayers; i++)
         lastKnots[stackOrder+i]+=knotShift;
 
       //add stackOrder padding knots before
@@ -286,16 +270,34 @@ public:
     naxes=allocate<uint64_t>(ndim);
     for(unsigned int i=0; i<inputDim; i++)
       naxes[i] = tables.front()->get_ncoeffs(i);
-    naxes[inputDim]=tables.size();
+    naxes[inputDim]=nLayers;
+
+    //the extents of the stacked tables, and the fully supported range of the
+    //new dimension
+    extents=allocate<double_ptr>(ndim);
+    extents[0]=nullptr;
+    extents[0]=allocate<double>(2*ndim);
+    for(unsigned int i=1; i<ndim; i++)
+      extents[i]=&extents[0][2*i];
+    for(unsigned int i=0; i<inputDim; i++){
+      extents[i][0]=tables.front()->lower_extent(i);
+      extents[i][1]=tables.front()->upper_extent(i);
+    }
+    extents[inputDim][0]=knots[inputDim][order[inputDim]];
+    extents[inputDim][1]=knots[inputDim][nknots[inputDim]-order[inputDim]-1];
+    //the new dimension is not periodic
+    periods=allocate<double>(ndim);
+    for(unsigned int i=0; i<inputDim; i++)
+      periods[i]=tables.front()->get_period(i);
+    periods[inputDim]=0;
 
     //copy coefficients
     unsigned long nCoeffs=std::accumulate(naxes, naxes+ndim, 1UL, std::multiplies<uint64_t>());
-    unsigned long nInputCoeffs=std::accumulate(naxes, naxes+ndim-1, 1UL, std::multiplies<uint64_t>());
     coefficients=allocate<float>(nCoeffs);
     unsigned int step=naxes[ndim-1];
-    for(unsigned int i=0; i<tables.size(); i++){
+    for(unsigned int i=0; i<nLayers; i++){
       for(unsigned int j=0; j<nInputCoeffs; j++)
-        coefficients[i+j*step]=tables[i]->get_coefficients()[j];
+        coefficients[i+j*step]=layers[i][j];
     }
 
     //set strides
@@ -306,6 +308,11 @@ public:
       arraysize *= naxes[i];
       if(i>0)
         strides[i-1] = arraysize;
+    }
+    }catch(...){
+      //do not leak what was allocated so far: the destructor will not run
+      release_storage();
+      throw;
     }
 	}
 
@@ -630,6 +637,8 @@ public:
 	///Get the period of the spline in a given dimension
 	double get_period(uint32_t dim) const{
 		assert(dim<ndim);
+		if(!periods) //no periods were recorded: not periodic
+			return(0);
 		return(periods[dim]);
 	}
 	///Get the total number of spline coefficients
